@@ -7,6 +7,7 @@ operation via both default behaviors as well as per YAML Path behaviors.
 Copyright 2020, 2021 William W. Kimball, Jr. MBA MSIS
 """
 import sys
+from copy import deepcopy
 import argparse
 import json
 from os import access, R_OK, remove
@@ -456,7 +457,10 @@ def merge_matrix(
     for lhs_doc in lhs_docs:
         for rhs_doc in rhs_docs:
             try:
-                lhs_doc.merge_with(rhs_doc.data)
+                # Every LHS document receives its own copy of the RHS document
+                # lest nodes adopted by one LHS document be shared with -- and
+                # later merges into them leak to -- the other LHS documents.
+                lhs_doc.merge_with(deepcopy(rhs_doc.data))
             except MergeException as mex:
                 log.error(mex)
                 return_state = 41
